@@ -377,6 +377,48 @@ def r4_validate_before_commit(rep, src):
             why['the re-parse is the field and nothing else'] = ('the later line %r is accepted, the parser reads it as the end of the paragraph, and the first paragraph of the re-parse '
                                                                  'is taken without a test that nothing follows it: a value that ends in such lines is stored cut off, without an error' % (wb_,))
         _ = seqs
+    # a refusal leaves the paragraph as it was: on no path does a refusal (a raise, or the line loop, whose body raises) follow a store
+    # into an object of the document -- self, or a name bound from an expression rooted at self (the existing field, its parts)
+    doc_names = {'self'}
+    changed_ = True
+    while changed_:
+        changed_ = False
+        for st_ in ast.walk(fnode):
+            if isinstance(st_, ast.Assign) and len(st_.targets) == 1 and isinstance(st_.targets[0], ast.Name) and st_.targets[0].id not in doc_names:
+                r_ = st_.value
+                while isinstance(r_, (ast.Attribute, ast.Subscript, ast.Call)):
+                    r_ = r_.func if isinstance(r_, ast.Call) else r_.value
+                if isinstance(r_, ast.Name) and r_.id in doc_names:
+                    doc_names.add(st_.targets[0].id)
+                    changed_ = True
+
+    def doc_store(ev):
+        if ev[0] != 'store':
+            return False
+        try:
+            n_ = ast.parse(ev[1], mode='eval').body
+        except SyntaxError:
+            return False
+        if not isinstance(n_, (ast.Attribute, ast.Subscript)):
+            return False
+        while isinstance(n_, (ast.Attribute, ast.Subscript, ast.Call)):          # (locals are substituted: self.get_kvpair_element(...).x)
+            n_ = n_.func if isinstance(n_, ast.Call) else n_.value
+        return isinstance(n_, ast.Name) and n_.id in doc_names
+    late = None
+    for p_ in ps:
+        first_ = next((i for i, e in enumerate(p_.events) if doc_store(e)), None)
+        if first_ is None:
+            continue
+        refusal_after = (p_.outcome is not None and p_.outcome[0] == 'raise') or any(
+            e[0] == 'lines' and any(isinstance(n_, ast.Raise) for n_ in ast.walk(e[2])) for e in p_.events[first_ + 1:])
+        if refusal_after and late is None:
+            late = p_.events[first_]
+    if late is None:
+        rep.ok('C05.R4', f.site, 'a refused value leaves the paragraph as it was', 'no store into the paragraph or its existing field is followed by a refusal (%d paths)' % len(ps))
+    else:
+        rep.fail('C05.R4', f.site, 'a refused value leaves the paragraph as it was', 'the store `%s = %s` into an object of the document happens before the value has passed every '
+                 'check: an assignment that is then refused with ValueError has already changed the paragraph (for the comment of the existing field: the comment lines are gone '
+                 'from every later dump)' % (late[1], norm(late[2])[:60]), where='%s:%d' % (f.module.relpath, getattr(late[2], 'lineno', 0) or f.node.lineno))
     # the rejecting sides raise ValueError
     for p_ in ps:
         if p_.outcome[0] == 'raise' and p_.conds:
